@@ -22,6 +22,7 @@ RULES = {
     "C04.R2": lambda ctx: typesrules.sort_after_write(ctx, "C04.R2"),
     "C04.R3": lambda ctx: typesrules.key_agreement(ctx, "C04.R3"),
     "C04.R4": lambda ctx: typesrules.glb_shape(ctx, "C04.R4"),
+    "C04.R0": lambda ctx: __import__("rules.foundations", fromlist=["x"]).accessors(ctx, "C04.R0", ['types::Token', 'types::SourceMap::get_token', 'types::SourceMap::tokens', 'TokenIter']),
     "C04.R6": lambda ctx: typesrules.iteration(ctx, "C04.R6"),
     "C04.R7": r7,
 }
